@@ -193,6 +193,30 @@ theorem links_same_pulse_partial (rs : List Record) (prev next : List Int) (e : 
     obtain ⟨h1, h2⟩ := key.2 hn
     exact ⟨a, b, ha, hb, hl, h1, h2⟩
 
+/-- **Record linking connects exactly the time-adjacent fragments of one pulse in one channel** (full, on the property's
+domain: `wellFormedPulses rs`, i.e. every channel holds, in order, the fragments `0, 1, 2, …` of pulses that follow each
+other without overlap).  `record_links` returns, and
+`previous_record[i] = j ⟺ next_record[j] = i ⟺` records `j < i` are in one channel and `i` holds the fragment that follows
+the one at `j` in the same pulse (`NextInPulse`: same pulse start `time − record_i·samples_per_record·dt`, same `dt`,
+`record_i` one higher); every other entry is −1.  What happens outside this domain (a continuing fragment whose
+predecessor was cut away) is described by `links_prev_spec` / `links_spec_partial` and `links_next_counterexample`. -/
+theorem links_spec (rs : List Record) (hwf : wellFormedPulses rs = true) :
+    ∃ prev next, recordLinks rs = .ok (prev, next) ∧ prev.length = rs.length ∧ next.length = rs.length ∧
+    (∀ i j : Nat, i < rs.length → j < rs.length →
+      ((prev[i]? = some (j : Int) ↔ IsNextFragment rs (samplesPerRecord rs) j i) ∧
+       (next[j]? = some (i : Int) ↔ IsNextFragment rs (samplesPerRecord rs) j i))) ∧
+    (∀ i, i < rs.length → (prev[i]? = some (-1) ∨ ∃ j : Nat, prev[i]? = some (j : Int)) ∧
+                          (next[i]? = some (-1) ∨ ∃ j : Nat, next[i]? = some (j : Int))) := by
+  obtain ⟨prev, next, e⟩ := wf_recordLinks_ok hwf
+  obtain ⟨p1, p2⟩ := recordLinks_prev e
+  obtain ⟨n1, n2⟩ := recordLinks_next' e (wf_noOrphan hwf)
+  refine ⟨prev, next, e, p1, n1, ?_, ?_⟩
+  · intro i j hi hj
+    rw [← wf_isPrevFragment_iff hwf j i]
+    exact ⟨(p2 i hi).1 j, (n2 j hj).1 i⟩
+  · intro i hi
+    exact ⟨(p2 i hi).2, (n2 i hi).2⟩
+
 /-- a lone continuing fragment at time 0 -/
 def orphanWitness : List Record :=
   [{ time := 0, length := 4, dt := 1, channel := 0, recordI := 1, pulseLength := 8, area := 0, reductionLevel := 0,
@@ -282,69 +306,26 @@ theorem reduction_keeps_iff_fragments_partial (records : List Record) (hits : Li
             (m = h.recordI ∧ j < r.length ∧ (h.left : Int) - le ≤ j ∧ (j : Int) < h.right + re)
             ∨ (IsPrevFragment records spr m h.recordI ∧ (h.left : Int) - le ≤ (j : Int) - spr ∧ j < spr)
             ∨ (IsPrevFragment records spr h.recordI m ∧ (j : Int) + spr < h.right + re ∧ j < spr)
-          (keep → d[j]? = r.data[j]?) ∧ (¬ keep → d[j]? = some 0) := by
-  obtain ⟨prev, next, hl, hlen, hspec⟩ := cutOutsideHits_spec hne e
-  obtain ⟨p1, p2⟩ := recordLinks_prev hl
-  obtain ⟨n1, n2⟩ := recordLinks_next hl hz
-  intro m r hr
-  have hm : m < records.length := by
-    rcases Nat.lt_or_ge m records.length with h | h
-    · exact h
-    · simp [List.getElem?_eq_none h] at hr
-  obtain ⟨d, hd, -, hj⟩ := hspec m r hr
-  refine ⟨d, hd, ?_⟩
-  intro j hjl spr keep
-  have hiff : (∃ h ∈ hits, Covers records spr prev next le re h m j) ↔ keep := by
-    constructor
-    · rintro ⟨h, hh, hc⟩
-      refine ⟨h, hh, ?_⟩
-      rcases hc with ⟨h0, r', hr', h1, h2, h3⟩ | ⟨p, hp, hp1, hpm, h1, h2⟩ | ⟨p, hp, hp1, hpm, h1, h2⟩
-      · left
-        rw [← h0, hr] at hr'; simp only [Option.some.injEq] at hr'; subst hr'
-        exact ⟨h0, h1, h2, h3⟩
-      · right; left
-        have hk : h.recordI < records.length := by
-          rcases Nat.lt_or_ge h.recordI prev.length with h' | h'
-          · omega
-          · simp [List.getElem?_eq_none h'] at hp
-        rcases (p2 _ hk).2 with h' | ⟨j', h'⟩
-        · rw [hp] at h'; simp only [Option.some.injEq] at h'; exact absurd h' hp1
-        · rw [hp] at h'; simp only [Option.some.injEq] at h'; subst h'
-          have : m = j' := by omega
-          subst this
-          exact ⟨((p2 _ hk).1 m).1 hp, h1, h2⟩
-      · right; right
-        have hk : h.recordI < records.length := by
-          rcases Nat.lt_or_ge h.recordI next.length with h' | h'
-          · omega
-          · simp [List.getElem?_eq_none h'] at hp
-        rcases (n2 _ hk).2 with h' | ⟨j', h'⟩
-        · rw [hp] at h'; simp only [Option.some.injEq] at h'; exact absurd h' hp1
-        · rw [hp] at h'; simp only [Option.some.injEq] at h'; subst h'
-          have : m = j' := by omega
-          subst this
-          exact ⟨((n2 _ hk).1 m).1 hp, h1, h2⟩
-    · rintro ⟨h, hh, hc⟩
-      refine ⟨h, hh, ?_⟩
-      rcases hc with ⟨h0, h1, h2, h3⟩ | ⟨hp, h1, h2⟩ | ⟨hp, h1, h2⟩
-      · left; exact ⟨h0, r, by rw [← h0]; exact hr, h1, h2, h3⟩
-      · right; left
-        have hk : h.recordI < records.length := by
-          obtain ⟨a, b, -, hb, -⟩ := hp
-          rcases Nat.lt_or_ge h.recordI records.length with h' | h'
-          · exact h'
-          · simp [List.getElem?_eq_none h'] at hb
-        exact ⟨(m : Int), ((p2 _ hk).1 m).2 hp, by omega, by simp, h1, h2⟩
-      · right; right
-        have hk : h.recordI < records.length := by
-          obtain ⟨a, b, ha, -, -⟩ := hp
-          rcases Nat.lt_or_ge h.recordI records.length with h' | h'
-          · exact h'
-          · simp [List.getElem?_eq_none h'] at ha
-        exact ⟨(m : Int), ((n2 _ hk).1 m).2 hp, by omega, by simp, h1, h2⟩
-  have := hj j hjl
-  rw [hiff] at this
-  exact this
+          (keep → d[j]? = r.data[j]?) ∧ (¬ keep → d[j]? = some 0) :=
+  cut_fragments_spec _ (fun _ _ => Iff.rfl) hne (fun i b hb hri ht => noOrphanAtZero_spec hz i b hb hri ht) e
+
+/-- **Reduction on well-formed pulses (full on the property's domain).**  For `wellFormedPulses records` and any hit
+list / extensions on which `cut_outside_hits` returns: sample `j` of record `m` survives iff some hit `h` (of record `k`)
+has `m = k`, `j < length`, `left − le ≤ j < right + re`; or `m` holds the fragment before `k` in `k`'s pulse and
+`left − le ≤ j − samples_per_record`; or `m` holds the fragment after `k` and `j + samples_per_record < right + re`.
+Every other sample is 0; the other fields are untouched (`reduction_keeps_iff`). -/
+theorem reduction_keeps_iff_pulses (records : List Record) (hits : List HitRef) (le re : Int) (out : List Record)
+    (hne : records ≠ []) (hwf : wellFormedPulses records = true) (e : cutOutsideHits records hits le re = .ok out) :
+    ∀ m r, records[m]? = some r →
+      ∃ d, out[m]? = some { r with data := d, reductionLevel := hitsOnly } ∧
+        ∀ j : Nat, j < r.data.length →
+          let spr := samplesPerRecord records
+          let keep := ∃ h ∈ hits,
+            (m = h.recordI ∧ j < r.length ∧ (h.left : Int) - le ≤ j ∧ (j : Int) < h.right + re)
+            ∨ (IsNextFragment records spr m h.recordI ∧ (h.left : Int) - le ≤ (j : Int) - spr ∧ j < spr)
+            ∨ (IsNextFragment records spr h.recordI m ∧ (j : Int) + spr < h.right + re ∧ j < spr)
+          (keep → d[j]? = r.data[j]?) ∧ (¬ keep → d[j]? = some 0) :=
+  cut_fragments_spec _ (fun j i => wf_isPrevFragment_iff hwf j i) hne (wf_noOrphan hwf) e
 
 /-! ## integrate, zero_out_of_bounds -/
 
@@ -370,6 +351,88 @@ theorem integrate_consistent (r : Record) (hd : 0 < r.baseline.den) :
   · intro h
     have : rh % 2 = 0 := h3 (by omega)
     omega
+
+/-- **`baseline`, all inputs on which it returns.**  One output per record, `subtractBaseline r bl flip` with stored noise
+level `rms`, where
+* for a 0th fragment (`record_i = 0`): `bl` = mean of `w = data[:baseline_samples]` (`Σw / |w|`, exact) and
+  `rms = sqrt((|w|·Σw² − (Σw)²)/|w|²)` (the defining formulas; `|w| > 0`);
+* for a continuing fragment: `bl`, `rms` are those of the **last 0th fragment of its channel** before it (`LastFirstIn`) —
+  in well-formed input the 0th fragment of its own pulse, so all fragments of a pulse get the same integer part;
+* if there is none, `allow_sloppy_chunking` was set, `bl = fallback_baseline` and `rms = NaN` (otherwise `RuntimeError`).
+What `subtractBaseline` does is `baseline_subtraction_spec`. -/
+theorem baseline_spec (records : List Record) (k : Nat) (flip sloppy : Bool) (fb : Int) (out : List (Record × Rms))
+    (e : baseline records k flip sloppy fb = .ok out) :
+    out.length = records.length ∧
+    ∀ m r, records[m]? = some r →
+      ∃ bl rms, out[m]? = some (subtractBaseline r bl flip, rms) ∧
+        (r.recordI = 0 →
+          let w := r.data.take k
+          0 < w.length ∧ bl = ⟨w.sum, w.length⟩ ∧
+          rms = .sqrtOf ⟨(w.length : Int) * (w.map fun x => x * x).sum - w.sum * w.sum, w.length * w.length⟩) ∧
+        (r.recordI ≠ 0 →
+          (∃ j a, LastFirstIn records r.channel m j ∧ records[j]? = some a ∧
+              bl = (meanVar a.data k).1 ∧ rms = .sqrtOf (meanVar a.data k).2)
+          ∨ ((∀ j b, j < m → records[j]? = some b → b.channel = r.channel → b.recordI ≠ 0) ∧
+              sloppy = true ∧ bl = Q.ofInt fb ∧ rms = .nan)) := by
+  unfold baseline at e
+  split at e
+  · simp at e
+  · have hloop : baselineLoop k flip sloppy fb records (blStateAt k ([] ++ records) ([] : List Record).length) = .ok out := by
+      simpa [blStateAt, blInit] using e
+    obtain ⟨hlen, hget⟩ := baselineLoop_get k flip sloppy fb records [] out hloop
+    refine ⟨hlen, ?_⟩
+    intro m r hr
+    obtain ⟨ho, hsl, hden⟩ := hget m r hr
+    simp only [List.nil_append, List.length_nil, Nat.zero_add] at ho hsl hden
+    have hm : m ≤ records.length := by
+      rcases Nat.lt_or_ge m records.length with h | h
+      · omega
+      · simp [List.getElem?_eq_none h] at hr
+    by_cases hri : r.recordI = 0
+    · refine ⟨(meanVar r.data k).1, .sqrtOf (meanVar r.data k).2, by simpa [blDecide, hri] using ho, ?_, fun h => absurd hri h⟩
+      intro _ w
+      have hne : (r.data.take k).length ≠ 0 := hden hri
+      exact ⟨Nat.pos_of_ne_zero hne, rfl, rfl⟩
+    · rcases blStateAt_inv k records m hm r.channel with ⟨hs, hno⟩ | ⟨hs, j, a, hl, ha, hbl⟩
+      · refine ⟨Q.ofInt fb, .nan, by simpa [blDecide, hri, hs] using ho, fun h => absurd h hri, fun _ => ?_⟩
+        exact Or.inr ⟨hno, hsl hri hs, rfl, rfl⟩
+      · refine ⟨(meanVar a.data k).1, .sqrtOf (meanVar a.data k).2, by simpa [blDecide, hri, hs, hbl] using ho,
+          fun h => absurd h hri, fun _ => ?_⟩
+        exact Or.inl ⟨j, a, hl, ha, rfl, rfl⟩
+
+/-- **What the subtraction does**: the stored `baseline` is `bl`; sample `j < length` becomes `±(data[j] − int(bl))`
+(`−` when `flip`), where `int(bl)` truncates toward zero — for `bl ≥ 0` the floor, and then
+`int(bl) + (bl mod 1) = bl`; samples beyond `length` and all other fields are left as they are. -/
+theorem baseline_subtraction_spec (r : Record) (bl : Q) (flip : Bool) (hl : r.length ≤ r.data.length) :
+    subtractBaseline r bl flip = { r with data := (subtractBaseline r bl flip).data, baseline := bl } ∧
+    (∀ j, (subtractBaseline r bl flip).data[j]? =
+      if j < r.length then (r.data[j]?).map (fun x => (if flip then -1 else 1) * (x - bl.trunc)) else r.data[j]?) ∧
+    (0 ≤ bl.num → bl.trunc = bl.num / (bl.den : Int) ∧ bl.trunc * (bl.den : Int) + bl.fracNum = bl.num) :=
+  ⟨rfl, fun j => subtractBaseline_get r bl flip j hl,
+   fun h => ⟨by unfold Q.trunc; exact Int.tdiv_eq_ediv_of_nonneg h, trunc_add_frac bl h⟩⟩
+
+/-- **`integrate` after `baseline`: area = Σ data + length·frac = Σ (baseline − raw).**  For a record baselined with
+`flip` by a non-negative baseline `bl = n/d`, zero beyond `length`, no bit shift: the exact quantity `integrate` rounds,
+`Σ data' + (bl mod 1)·length`, equals `Σ_{j<length} (bl − raw_j)`, so the stored `area` is an integer nearest to the true
+integral above baseline (distance ≤ 1/2). -/
+theorem integrate_after_baseline (r : Record) (bl : Q) (hnum : 0 ≤ bl.num) (hd : 0 < bl.den)
+    (hl : r.length ≤ r.data.length) (hpad : ∀ x ∈ r.data.drop r.length, x = 0) (hs : r.ampBitShift = 0) :
+    let r' := subtractBaseline r bl true
+    let d : Int := bl.den
+    let integral := (r.length : Int) * bl.num - (r.data.take r.length).sum * d   -- d · Σ_{j<length} (bl − raw_j)
+    r'.data.sum * d + bl.fracNum * (r.length : Int) = integral ∧
+    2 * ((integrateOne r').area * d - integral) ≤ d ∧ 2 * (integral - (integrateOne r').area * d) ≤ d := by
+  intro r' d integral
+  have hsum := baselined_sum r bl hnum hl hpad
+  have hic := integrate_consistent r' (by simpa [r', subtractBaseline] using hd)
+  simp only at hic
+  obtain ⟨-, h1, h2, -⟩ := hic
+  have e1 : r'.baseline = bl := rfl
+  have e2 : r'.length = r.length := rfl
+  have e3 : r'.ampBitShift = 0 := hs
+  rw [e1, e2, e3] at h1 h2
+  simp only [Int.pow_zero, Int.mul_one] at h1 h2
+  refine ⟨hsum, ?_, ?_⟩ <;> (simp only [integral, d]; rw [← hsum]; omega)
 
 /-- **`zero_out_of_bounds`** keeps the first `length` samples, zeroes the rest, and changes nothing else. -/
 theorem zero_out_of_bounds_spec (r : Record) :
@@ -417,6 +480,15 @@ example : SameOrDisjoint 4 demo[0] demo[2] ∧ NextInPulse 4 demo[0] demo[2] ∧
 /-- the hypotheses of the totality theorems hold on `demo` -/
 example : (demo.all fun r => decide (0 ≤ r.channel ∧ r.length ≤ r.data.length)) = true ∧
     ([(⟨0, 3, 4⟩ : HitRef), ⟨2, 0, 1⟩].all fun h => decide (h.recordI < demo.length ∧ h.left ≤ h.right)) = true := by decide
+
+/-- `demo` is a well-formed pulse array (domain of `links_spec`, `reduction_keeps_iff_pulses`); the orphan witness is not -/
+example : wellFormedPulses demo = true ∧ wellFormedPulses orphanWitness = false := by decide
+
+/-- `baseline` returns on raw versions of `demo` (2 baseline samples, flipped), and the hypotheses of
+`integrate_after_baseline` hold for a zero-padded record with baseline 5/2 -/
+example : (match baseline demo 2 true false 0 with
+           | .ok out => out.map (fun o => (o.1.baseline, o.1.data))
+           | .error _ => []) = [(⟨3, 2⟩, [1, -2, 1, -1]), (⟨5, 2⟩, [1, -2, -2, 0]), (⟨3, 2⟩, [-1, 1, 1, 0])] := by decide
 
 /-- the reduction of `demo` returns, and keeps the sample before the straddling hit and the one after it -/
 example : (match cutOutsideHits demo [⟨0, 3, 4⟩, ⟨2, 0, 1⟩] 1 1 with
